@@ -16,7 +16,10 @@ def run(pid, tier, seed):
   chk.add_mc("MC_QOps_" + tier, mc, "closed forms = loop-nest cardinalities on small geometries")
   rejects, errors, events = sharded_events(chk, "drive_qops.py", "-", "Trace_QOps", tier, seed, "qops")
   for e in errors:
-    chk.violation({"clause": "raises", "class": e["g"].get("cls")}, e)
+    ident = {"clause": "raises", "class": e["g"].get("cls")}
+    if "aq" in e["g"]:
+      ident.update(via=e["g"]["via"], input_quantizer=e["g"]["aq"], kernel_quantizer=e["g"]["kq"])
+    chk.violation(ident, e)
   for ev, clauses in rejects:
     for cl in clauses:
       if ev["k"] == "count":
@@ -35,7 +38,7 @@ def run(pid, tier, seed):
       else:
         chk.violation({"clause": cl, "model": ev["model"]}, {k: ev[k] for k in ("setting", "layers", "total", "sel", "extracted")})
   for ev in events:
-    chk.key(json.dumps([ev["g"], ev.get("via")], sort_keys=True) if ev["k"] == "count" else json.dumps([ev["model"], ev["setting"], ev["sel"]]))
+    chk.key(json.dumps([ev["g"], ev.get("via"), ev.get("aq"), ev.get("kq")], sort_keys=True) if ev["k"] == "count" else json.dumps([ev["model"], ev["setting"], ev["sel"]]))
   chk.sample(next(e for e in events if e["k"] == "count"))
   en = [e for e in events if e["k"] == "energy"]
   if en:
